@@ -1,11 +1,11 @@
 import DarkluaModel.C09.Globals
 /-!
-C09: the family of streams on which `self` is captured.
+C09: the family of streams on which `self` used to be captured (finding F09a, fixed).
 
-`function t:m() local x … local x  return self end` with enough `local x`: the permutator reaches
-the string `self`, a local is renamed `self` inside the method, and the `self` that follows
-refers to that local instead of the implicit parameter.  No stream is evaluated: the index
-is found by the "first accepted string" property of the retry loop.
+`function t:m() local x … local x  return self end` with enough `local x`: before the fix the
+permutator reached the string `self`, a local was renamed `self` inside the method, and the
+`self` that follows referred to that local instead of the implicit parameter.  Kept as a
+regression family: `Thm.lean` shows the fixed model handles every member.
 -/
 namespace DarkluaModel.C09
 
@@ -116,100 +116,5 @@ theorem avoidList_selfWitness (N : Nat) : avoidList witnessCfg (selfWitness N) =
   have h := collectGlobalsFrom_eq (selfWitness N) [] RState.empty trivial
   have h' : collectGlobals (selfWitness N) = globalUses (selfWitness N) := h
   simp [avoidList, witnessCfg, functionNames_selfWitness, h', globalUses_selfWitness]
-
-/-! ### the processor on such streams -/
-
-/-- names generated by `N` consecutive fresh generations from permutator state `p` -/
-def genSeq (avoid : List Name) : Digits → Nat → List Name
-  | _, 0 => []
-  | p, N + 1 => (generateFresh p avoid).1 :: genSeq avoid (generateFresh p avoid).2 N
-
-/-- processor states inside the method: nothing to reuse, `self ↦ self` in the innermost
-dictionary -/
-structure Simple (s : State) : Prop where
-  pool : s.pool = []
-  dict : ∃ d rest, s.stack = d :: rest ∧ d.get? selfName = some ⟨selfName, selfName, false⟩
-
-theorem step_local_simple {s : State} (h : Simple s) :
-    (step s (.insertLocal xName)).1 = .insertLocal (generateFresh s.perm s.avoid).1 ∧
-    (step s (.insertLocal xName)).2.perm = (generateFresh s.perm s.avoid).2 ∧
-    (step s (.insertLocal xName)).2.avoid = s.avoid ∧
-    Simple (step s (.insertLocal xName)).2 := by
-  obtain ⟨d, rest, hst, hd⟩ := h.dict
-  have hg : generateIdentifier s
-      = ((generateFresh s.perm s.avoid).1, { s with perm := (generateFresh s.perm s.avoid).2 }) := by
-    unfold generateIdentifier
-    rw [h.pool]
-    rfl
-  simp only [step, replaceIdentifier, hg, State.add, hst]
-  refine ⟨trivial, trivial, trivial, ⟨h.pool, _, _, rfl, ?_⟩⟩
-  have hne : selfName ≠ xName := fun he => xName_ne_self he.symm
-  have hb : (xName == selfName) = false := beq_false_of_ne xName_ne_self
-  simp only [Dict.get?] at hd
-  simp only [Dict.insert, Dict.get?, List.find?_cons, hb]
-  -- the filter keeps the `self` entry
-  have : ∀ (d : Dict), (d.filter (fun o => o.real != xName)).find? (fun o => o.real == selfName)
-      = d.find? (fun o => o.real == selfName) := by
-    intro d
-    induction d with
-    | nil => rfl
-    | cons e es ih =>
-      by_cases hk : e.real = xName
-      · have hx : (e.real == selfName) = false := beq_false_of_ne (by rw [hk]; exact xName_ne_self)
-        have hk' : (e.real != xName) = false := by simp [hk]
-        rw [List.filter_cons, List.find?_cons, hx, hk']
-        exact ih
-      · have hk' : (e.real != xName) = true := by simp [hk]
-        rw [List.filter_cons, hk']
-        simp only [if_true, List.find?_cons]
-        rw [ih]
-  rw [this, hd]
-
-theorem run_locals (N : Nat) : ∀ (s : State), Simple s →
-    run s (List.replicate N (.insertLocal xName) ++ [.use selfName])
-      = (genSeq s.avoid s.perm N).map .insertLocal ++ [.use selfName] := by
-  induction N with
-  | zero =>
-    intro s h
-    obtain ⟨d, rest, hst, hd⟩ := h.dict
-    simp [run, step, lookupUse, getObfuscatedName, hst, hd, genSeq]
-  | succ N ih =>
-    intro s h
-    obtain ⟨h1, h2, h3, h4⟩ := step_local_simple h
-    simp only [List.replicate_succ, List.cons_append, run, genSeq, List.map_cons]
-    rw [h1, ih _ h4, h2, h3]
-
-/-! ### `self` is eventually generated -/
-
-/-- `self` as a permutator state (last character first) -/
-def selfDigits : Digits := [5, 11, 4, 18]
-
-theorem display_selfDigits : display selfDigits = selfName := by decide
-
-theorem filter_self_keywords : filterIdentifier ([] ++ keywords) selfName = true := by decide
-
-theorem self_generated (avoid : List Name) (hf : filterIdentifier avoid selfName = true) :
-    ∀ (k : Nat) (p : Digits), permVal p ≤ permVal selfDigits → permVal selfDigits - permVal p < k →
-      ∃ N gs, genSeq avoid p (N + 1) = gs ++ [selfName] := by
-  intro k
-  induction k with
-  | zero => intro p _ h; omega
-  | succ k ih =>
-    intro p hle hlt
-    obtain ⟨q, h1, h2, h3, h4⟩ := generateFresh_spec p avoid
-    by_cases hq : permVal q = permVal selfDigits
-    · have := permVal_injective hq
-      subst this
-      exact ⟨0, [], by simp [genSeq, h1, display_selfDigits]⟩
-    · by_cases hlt2 : permVal q < permVal selfDigits
-      · have hinc := permVal_incr q
-        obtain ⟨N, gs, hN⟩ := ih (incr q) (by omega) (by omega)
-        refine ⟨N + 1, display q :: gs, ?_⟩
-        rw [genSeq, h1]
-        simp only [List.cons_append, List.cons.injEq, true_and]
-        exact hN
-      · have := h4 selfDigits hle (by omega)
-        rw [display_selfDigits, hf] at this
-        exact absurd this (by simp)
 
 end DarkluaModel.C09
